@@ -169,11 +169,13 @@ def monitors_e2e(o):
     if closing:
         if o["hs_pend_x"] and ev != "fatal":
             h = o["hs_x"]
-            # a closed / EOF class ("handshake failed: conn is closed" since 83f5bff; the closed socket's
-            # error during version negotiation), not the internal cancellation nobody asked for
-            if h.startswith("late:") or h == "stuck" or h not in CLOSE_CLASS | {"ok"}:
-                out.append(("unblock", "%s was released by Close with class %s%s, not with a closed/EOF error"
-                            % (who, h, " (%s)" % o["texts"].strip(";|")[:80] if o.get("texts") else "")))
+            # a closed / EOF class ("handshake failed: conn is closed" since 83f5bff; ErrConnClosed also during
+            # the dual-stack version negotiation since 0805f5b), not the internal cancellation nobody asked
+            # for and not whatever error the closed transport happens to return
+            if h.startswith("late:") or h == "stuck" or h not in {"closed", "eof", "ok"}:
+                out.append(("unblock", "%s%s was released by Close with class %s%s, not with a closed/EOF error"
+                            % (who, " (in version negotiation)" if o.get("neg_x") else "", h,
+                               " (%s)" % o["texts"].strip(";|")[:80] if o.get("texts") else "")))
         if o["hs_pend_x"] and ev == "fatal" and not o["est_x1"]:
             if o["hs_x"] not in {"alert"} | CLOSE_CLASS:
                 out.append(("unblock", "pending HandshakeContext after fatal alert ended with class %s" % o["hs_x"]))
@@ -318,7 +320,9 @@ def model_case(o):
             # the handshake completed before the alert was processed
             est, hs_pend = True, False
     if ev == "nohs":
-        hs_pend, est, neg = False, False, False   # the Handshake call comes after the Close (ev 5)
+        # the Handshake call comes after the Close (ev 5); a dual-stack endpoint starts with the negotiation
+        hs_pend, est = False, False
+        neg = (sc["variant"], sc["side"]) in (("dualc", "client"), ("duals", "server"), ("dual13", "client"))
     if ev == "hsctx":
         rd_pend = wr_pend = False   # a cancelled Handshake context does not concern Read/Write
     if ev == "idl":
